@@ -44,13 +44,16 @@ def trace_filter(code):
     return False
 
 
-def execute(script_name, api, chooser, stall=True, rerun=False, gate_points=None, window=None):
+def execute(script_name, api, chooser, stall=True, rerun=False, gate_points=None, window=None, opcode_points=False, arm='start'):
     background = api.startswith(('bg:', 'bgonly:'))
     with_follower = not api.startswith('bgonly:')
     base_api = api.split(':')[-1]
     gate_points = GATE_POINTS if gate_points is None else gate_points
     window = WINDOW_AFTER_STOP if window is None else window
-    sched = vthreads.Scheduler(chooser, horizon=HORIZON, max_steps=30000, trace_filter=trace_filter, stall=stall)
+    from bardolph.vm import machine as _machine_mod
+    from bardolph.controller import script_job as _script_job_mod
+    sched = vthreads.Scheduler(chooser, horizon=HORIZON, max_steps=60000 if opcode_points else 30000, trace_filter=trace_filter, stall=stall,
+                               opcode_points=opcode_points, trace_modules=(clock_mod, job_control, _machine_mod, _script_job_mod))
     w = world.World(POP, clock='real', overrides={'sleep_time': 1.0, 'manifest_file_name': None})
     shim = vthreads.ShimThreadingModule(sched, ['requester', 'job', 'clock', 'follower', 'clock2', 'rerun', 'clock3'] +
                                         ['extra%d' % i for i in range(8)])
@@ -91,6 +94,8 @@ def execute(script_name, api, chooser, stall=True, rerun=False, gate_points=None
         for op, fn in list(m._fn_table.items()):
             def stepped(fn=fn, op=op):
                 sched.log('inst', tag, op.name)
+                if arm == 'first-inst' and tag == 'j' and not gate['armed']:
+                    gate['armed'] = True          # narrow windows start when the script begins to execute
                 return fn()
             m._fn_table[op] = stepped
         real_execute = job.execute
@@ -140,7 +145,8 @@ def execute(script_name, api, chooser, stall=True, rerun=False, gate_points=None
         rq = shim.Thread(target=requester)
         rq.start()
         agent_box[0] = jc.spawn_job(job, 'j') if background else jc.add_job(job, 'j')
-        gate['armed'] = True
+        if arm == 'start':
+            gate['armed'] = True
         if with_follower:
             jc.add_job(follower, 'f')
         for _ in range(int(HORIZON) + 5):
@@ -235,11 +241,13 @@ def judge(script_name, api, obs, rerun=False):
 
 
 def _explore(args):
-    script_name, api, bound, shard, rerun, gate_points, window = args
+    script_name, api, bound, shard, rerun, gate_points, window = args[:7]
+    opc = len(args) > 7 and args[7]
+    arm = args[8] if len(args) > 8 else 'start'
     st = dict(execs=0, points=0, outcomes=set(), viol={}, gate_positions=set())
 
     def run(ch):
-        return execute(script_name, api, ch, stall=True, rerun=rerun, gate_points=gate_points, window=window)
+        return execute(script_name, api, ch, stall=True, rerun=rerun, gate_points=gate_points, window=window, opcode_points=opc, arm=arm)
     verdicts = {}
 
     def expand(ch, obs):
@@ -253,7 +261,7 @@ def _explore(args):
         st['outcomes'].add((obs['verdict'], len([e for e in obs['events'] if e[2] == 'dev-req'])))
         bad = verdicts.pop(tuple(ch.choices))
         if bad is None and st['execs'] % 53 == 0:
-            obs2 = execute(script_name, api, choice.Chooser(ch.choices), stall=True, rerun=rerun, gate_points=gate_points, window=window)
+            obs2 = execute(script_name, api, choice.Chooser(ch.choices), stall=True, rerun=rerun, gate_points=gate_points, window=window, opcode_points=opc, arm=arm)
             if obs2['events'] != obs['events']:
                 bad = ('harness-nondeterministic-replay', '')
         if bad is not None:
@@ -293,21 +301,26 @@ def plan(tier):
         for api in ('bg:stop_job', 'bg:stop_all', 'bgonly:stop_all', 'bgonly:stop_job'):
             deep = tier != 'quick' or (s, api) == ('infinite', 'bg:stop_all')     # stop-all racing the end of the queued job
             out.append((s, api, 1 if deep else 0, 16 if deep else 1, False, GATE_POINTS, WINDOW_AFTER_STOP))
-    if tier == 'thorough':
-        out.append(('timed', 'stop_job', 2, 16, False, 24, 20))
-        out.append(('time-of-day', 'stop_all', 2, 16, False, 24, 20))
     return out
 
 
 def run(tier, seed):
     rep = Report()
-    tasks = [(s, api, b, (r, n), rr, gp, wn) for s, api, b, n, rr, gp, wn in plan(tier) for r in range(n)]
+    tasks = [(s, api, b, (r, n), rr, gp, wn, False) for s, api, b, n, rr, gp, wn in plan(tier) for r in range(n)]
+    # visible-bytecode granularity (preemption between two attribute reads of one line)
+    opc_pairs = [('timed', 'stop_job')] if tier == 'quick' else [('timed', 'stop_job'), ('straight', 'stop_all'), ('infinite', 'stop_current'), ('time-of-day', 'agent')]
+    tasks += [(s, api, 0 if tier == 'quick' else 1, (r, 16), False, 120, 60, True) for s, api in opc_pairs for r in range(16)]
+    if tier == 'thorough':
+        # two further deviations on a narrow window that starts at the script's first instruction
+        for s, api in (('timed', 'stop_job'), ('time-of-day', 'stop_all'), ('timed', 'bgonly:stop_all')):
+            tasks += [(s, api, 2, (r, 16), False, 40, 25, False, 'first-inst') for r in range(16)]
     results = par.run_tasks(_explore, tasks)
     per = {}
     viol = {}
     tot_exec = tot_pts = 0
-    for (s, api, b, shard, rr, gp, wn), st in zip(tasks, results):
-        key = '%s/%s/bound%d/gate%d' % (s, api, b, gp)
+    for task, st in zip(tasks, results):
+        s, api, b, shard, rr, gp, wn, opc = task[:8]
+        key = '%s/%s/bound%d/gate%d%s' % (s, api, b, gp, '/bytecode-points' if opc else '')
         cur = per.setdefault(key, dict(schedules=0, stop_positions=0, outcomes=0))
         cur['schedules'] += st['execs']
         cur['stop_positions'] = max(cur['stop_positions'], st['gate_positions'])
@@ -318,13 +331,13 @@ def run(tier, seed):
             k2 = (kind, s)
             c2 = viol.get(k2)
             if c2 is None or len(choices) < len(c2[1]):
-                viol[k2] = [(c2[0] if c2 else 0) + cnt, choices, detail, api, rr, gp, wn]
+                viol[k2] = [(c2[0] if c2 else 0) + cnt, choices, detail, api, rr, gp, wn, opc]
             else:
                 c2[0] += cnt
-    for (kind, s), (cnt, choices, detail, api, rr, gp, wn) in sorted(viol.items()):
+    for (kind, s), (cnt, choices, detail, api, rr, gp, wn, opc) in sorted(viol.items()):
         sig = '%s:%s' % (kind, s)
         rep.violation(sig, '%s: script `%s`, stop via %s (%d schedules): %s' % (kind, SCRIPTS[s], api, cnt, detail),
-                      {'script': s, 'api': api, 'choices': choices, 'rerun': rr, 'gate_points': gp, 'window': wn, 'detail': detail, 'schedules': cnt})
+                      {'script': s, 'api': api, 'choices': choices, 'rerun': rr, 'gate_points': gp, 'window': wn, 'opcode_points': bool(opc), 'arm': 'first-inst' if gp == 40 else 'start', 'detail': detail, 'schedules': cnt})
     rep.coverage = {
         'states': tot_pts, 'transitions': tot_pts,
         'traces_validated_against_impl': tot_exec, 'evaluations': tot_exec,
@@ -351,7 +364,7 @@ def replay(path):
     v = json.load(open(path))
     wit = v['witness']
     obs = execute(wit['script'], wit['api'], choice.Chooser(wit['choices']), rerun=wit.get('rerun', False),
-                  gate_points=wit.get('gate_points'), window=wit.get('window'))
+                  gate_points=wit.get('gate_points'), window=wit.get('window'), opcode_points=wit.get('opcode_points', False), arm=wit.get('arm', 'start'))
     for e in obs['events']:
         print('   ', e)
     print('verdict', obs['verdict'], 'errors', obs['errors'], 't=%.1f' % obs['now'])
